@@ -62,7 +62,7 @@ def main() -> int:
             return 2
     name = f"confirm-{args.prop}-{args.mut}-{os.getpid()}"
     wt = f"/tmp/wt/{name}"
-    r = sh(f"/tmp/wt/setup_wt.sh {name}")
+    r = sh(f"mkdir -p /tmp/wt && sh {HERE}/tools/setup_wt.sh {name}")
     if r.returncode != 0:
         print("worktree setup failed", r.stderr[-300:])
         return 2
